@@ -177,6 +177,18 @@ func (c *ctx) newCommitN(branch string, n int) {
 	c.git("commit", "commit", "-q", "-m", "extra commit")
 }
 
+// faultOrdinal: how many fault-eligible cases (http transport, idx%3 == 1) precede idx; consecutive fault
+// cases thus rotate through all fault modes whatever the seed.
+func faultOrdinal(idx int) int {
+	k := 0
+	for i := 0; i < idx; i++ {
+		if i%3 == 1 && i%4 != 3 {
+			k++
+		}
+	}
+	return k
+}
+
 func runCase(run *evid.Run, idx int) *caseResult {
 	r := rand.New(rand.NewSource(run.Seed*1000003 + int64(idx)))
 	env := sbx.New()
@@ -193,7 +205,7 @@ func runCase(run *evid.Run, idx int) *caseResult {
 	batch := []int{1, 2, 3, 100}[r.Intn(4)]
 	faultMode := "nofault"
 	if !c.stand && idx%3 == 1 {
-		faultMode = []string{"put-503", "batch-429", "exhaust+batch-429", "exhaust+batch-429", "put-reset", "mixed"}[(idx/3+int(run.Seed%6+6))%6]
+		faultMode = []string{"put-503", "batch-429", "exhaust+batch-429", "exhaust+batch-429", "put-reset", "mixed", "lost-put+verify"}[(faultOrdinal(idx)+int(run.Seed%7+7))%7]
 	}
 	hopts := histgen.Options{Commits: 8 + r.Intn(8), Merges: true, Tags: true, TrackToggles: true, Symlinks: true, ExecBits: true, EmptyFiles: true}
 	if faultMode == "exhaust+batch-429" {
@@ -237,6 +249,9 @@ func runCase(run *evid.Run, idx int) *caseResult {
 		}
 		c.git("setup", "config", "lfs.transfer.maxretries", fmt.Sprint(retries))
 		c.git("setup", "config", "lfs.transfer.maxretrydelay", "1")
+		if faultMode == "lost-put+verify" {
+			srv.WithVerify = true // every upload action comes with a verify action, answered truthfully (404 if the object is not stored)
+		}
 		var fmu sync.Mutex
 		fr := rand.New(rand.NewSource(r.Int63()))
 		puts := map[string]int{}
@@ -274,6 +289,12 @@ func runCase(run *evid.Run, idx int) *caseResult {
 					if n <= retries && early[rq.Oid] {
 						run.Count("faults_put_503", 1)
 						return &fakelfs.Fault{Status: 503}
+					}
+				case "lost-put+verify":
+					// the storage back-end answers 200 but loses some uploads; only the verify action can tell
+					if rq.Oid[0] < '6' {
+						run.Count("faults_put_lost", 1)
+						return &fakelfs.Fault{DropPut: true}
 					}
 				case "put-reset":
 					if n == 1 && fr.Intn(2) == 0 {
@@ -609,7 +630,7 @@ func sortStrings(s []string) []string {
 func main() {
 	run := evid.New("C03", "exploration")
 	defer sbx.RemoveBase()
-	run.Rule = "seeded histories (histgen: branches, merges incl. octopus, orphan branches, tags, renames/copies/deletes, files moving in and out of LFS tracking, nested .gitattributes, symlinks, exec bits, empty files) pushed by seeded plans over {git push <branch>, --all, --tags, new commits, amended+forced, deleted refs, git lfs push <ref>, git lfs push --all, a second clone moving the remote branch, missing local object with/without lfs.allowincompletepush} x batch size {1,2,3,100} x {http fake server, file:// standalone remote} x transient server faults in one http case out of three {PUT 503, PUT connection reset, batch 429, mixed, and the schedule 'an object uses up its retry budget, then meets objects not yet sent in a batch call that fails' with a bulk commit and a slow batch endpoint}; family b re-points the remote to an empty server. Oracle: brute-force enumeration (git rev-list/ls-tree/cat-file with filters disabled + ptrspec) of every pointer in every commit reachable from the remote's refs vs the server store. Class = (transport, family, batch size, set of step kinds)."
+	run.Rule = "seeded histories (histgen: branches, merges incl. octopus, orphan branches, tags, renames/copies/deletes, files moving in and out of LFS tracking, nested .gitattributes, symlinks, exec bits, empty files) pushed by seeded plans over {git push <branch>, --all, --tags, new commits, amended+forced, deleted refs, git lfs push <ref>, git lfs push --all, a second clone moving the remote branch, missing local object with/without lfs.allowincompletepush} x batch size {1,2,3,100} x {http fake server, file:// standalone remote} x transient server faults in one http case out of three {PUT 503, PUT connection reset, batch 429, mixed, uploads answered 200 but lost while the verify action truthfully answers 404, and the schedule 'an object uses up its retry budget, then meets objects not yet sent in a batch call that fails' with a bulk commit and a slow batch endpoint}; family b re-points the remote to an empty server. Oracle: brute-force enumeration (git rev-list/ls-tree/cat-file with filters disabled + ptrspec) of every pointer in every commit reachable from the remote's refs vs the server store. Class = (transport, family, batch size, set of step kinds)."
 	run.Assumptions = []string{"family a: the fake server never loses objects and remote-tracking refs only change through push/fetch against the same server, so 'reachable from remote refs => on server' is an invariant every correct implementation maintains", "pointers are the canonical non-empty pointers found in any tree (the generator creates no look-alikes)", "git 2.39.5"}
 	n := run.N(40, 400)
 	workers := runtime.NumCPU()
